@@ -20,7 +20,9 @@ RULE = (
     'factor or exponent or value, array operand, or a conversion with F(u)!=F(v) of an uncertain quantity. Round '
     '4: sums/differences of levels (dB family) with errors, the same object on both sides of an operator, bare '
     'numbers converted to (m)rad. Later rounds: measured zeros; rebase() as a conversion; Quantity(x, q) with an '
-    'uncertain quantity q as the unit; integer absolute errors. Distinct = distinct case JSON.'
+    'uncertain quantity q as the unit; integer absolute errors. Round 8: negation keeps the uncertainty '
+    '(Magnitude and Quantity); a relative error overridden by an absolute one before a conversion. Distinct = '
+    'distinct case JSON.'
 )
 ASSUMPTIONS = [
     "the size of the power rule is not claimed by the property (only its sign is checked)",
